@@ -602,6 +602,22 @@ func checkC16(c *Check) {
 	if npairs < 16 {
 		c.Fail("C16-R2 lost instances: %d pairs", npairs)
 	}
+	// events emitted on a branched context are lost: sdk.Context.CacheContext() comes with a fresh event manager, so
+	// whatever keepers and hooks emit below it never reaches the transaction even though the writes are committed
+	ncc := 0
+	for _, fn := range l.prodFuncs() {
+		p := relPkg(fnPkgPath(fn))
+		if !strings.HasPrefix(p, "x/") || strings.Contains(p, "/client") || strings.Contains(p, "/simulation") {
+			continue
+		}
+		for _, call := range callsInOwn(fn) {
+			if m := calleeMethod(call); (m == "CacheContext" || m == "WithEventManager") && strings.Contains(calleeFull(call), "cosmos-sdk/types.Context") {
+				ncc++
+				c.Ob("R2", "context branched / event manager replaced in "+fnName(fn), call.Pos(), false, "state changes made under this context are committed but their events are discarded: the transaction's events no longer describe what it changed")
+			}
+		}
+	}
+	c.Ob("R2", "module code never branches the context or swaps the event manager (see violations otherwise)", token.NoPos, ncc == 0, "")
 	// lifecycle events are emitted only from keepers
 	for _, fn := range l.prodFuncs() {
 		if strings.Contains(fnPkgPath(fn), "/keeper") {
